@@ -103,6 +103,17 @@ theorem C02_loop_var_own_element (lv : Name) (vars : List (Name × Str)) (items 
 theorem C02_loop_one_per_element (lv : Name) (vars : List (Name × Str)) (items : List Str) (refs : List Name) :
     (loopRender lv vars items refs).length = items.length := by simp [loopRender]
 
+/-- **a loop over a map variable pairs every key with ITS value**: whatever order `es` the map hands its entries out in
+(any permutation of the map `m`), the iterations are exactly the entries of the map — each (KEY, ITEM) pair is an entry,
+every entry occurs, none twice when the keys are distinct.  (The order is the documented variation; the pairing is not.) -/
+theorem C02_map_loop_pairs (m es : List (Str × Str)) (hp : es.Perm m) :
+    (∀ p, p ∈ mapLoop es ↔ p ∈ m) ∧ (mapLoop es).length = m.length ∧ ((m.map (·.1)).Nodup → ((mapLoop es).map (·.1)).Nodup) :=
+  ⟨fun _ => hp.mem_iff, hp.length_eq, fun hn => (hp.map _).nodup_iff.mpr hn⟩
+
+example : mapLoop [([98], [50]), ([97], [49])] = [([98], [50]), ([97], [49])] ∧
+    [([98], [50]), ([97], [49])].Perm [([97], [49]), ([98], [50])] := by
+  refine ⟨rfl, ?_⟩; exact List.Perm.swap _ _ _
+
 /-- non-vacuity: a task variable named like the loop variable does not hide the elements -/
 example : loopRender 7 [(7, [115]), (8, [120])] [[97], [98]] [7, 8] =
     [[some [97], some [120]], [some [98], some [120]]] := by decide
